@@ -211,6 +211,36 @@ theorem c18_valid_iff {K : Type} [LinearOrder K] (rs : List (K × K × K)) :
     exact h r hr
 
 
+/-! ### the caller's keyword dictionary reused across calls -/
+
+/-- **every call injects the total requested in *that* call, whatever was requested before with the same
+`sig_kwargs` dictionary** (and whatever `mean` the dictionary carried initially): the mean handed to the signal
+generator in call `i` of a history sharing one dictionary is `mean_n_sig` of call `i`; a call with
+`mean_n_sig = 0` does not reach the generator. -/
+theorem c18_kwargs_history (kw : Option Int) (reqs : List Int) :
+    kwHistory kwCall kw reqs = reqs.map (fun r => if r = 0 then none else some r) := by
+  induction reqs generalizing kw with
+  | nil => rfl
+  | cons r rs ih =>
+    simp only [kwHistory, List.map_cons, ih]
+    congr 1
+    unfold kwCall
+    split_ifs <;> rfl
+
+/-- the claim for a dictionary update that keeps an existing key -/
+def c18_kwargs_history_setdefault_statement : Prop :=
+  ∀ (kw : Option Int) (reqs : List Int),
+    kwHistory kwCallSetdefault kw reqs = reqs.map (fun r => if r = 0 then none else some r)
+
+/-- with `setdefault` the second call of a scan (2, then 5 events) injects the total of the first -/
+theorem c18_kwargs_history_setdefault_counterexample : ¬ c18_kwargs_history_setdefault_statement := by
+  intro h
+  have := h none [2, 5]
+  revert this
+  decide
+
+example : kwHistory kwCall (some 9) [3, 0, 7, 7, 1] = [some 3, none, some 7, some 7, some 1] := by decide
+
 /-! ## 3. declination bands and candidate table -/
 
 section field
